@@ -1028,6 +1028,83 @@ def run(ctx, report):
     from .c09 import segment_render_rule
     segment_render_rule(ctx, R12)
 
+    # ---------------------------------------------------------------- D13 the rendering shows the immediate
+    R13 = report.rule('C01.D13', 'x86_mn.__str__ evaluated as a whole (Intel and AT&T) on every decoder form that carries an immediate, for immediates that differ in a low bit, in bits 3-7 '
+                      'and in the top bit: different immediates give different texts, so no bit of the encoded immediate is dropped or folded into the mnemonic', floor=150)
+    render_immediate_rule(ctx, R13)
+
+
+def render_immediate_rule(ctx, R):
+    """Shared with C03.D12.  The forms are those of the lifter model (operands as _dis builds them); the immediate is given three values and the method is interpreted from its source."""
+    from ..liftforms import LifterModel
+    from ..lifter import ModVal
+    from ..consteval import Evaluator, Obj, NotConst, PyRaise, class_obj
+    from .. import stringops as SO
+    L = LifterModel(ctx, opmodes=('u32',), rich=False)
+    X = L.X
+    arch, afs, E = X.arch, X.afs, X.env
+    strm = arch.method('x86_mn', '__str__')
+    env = SO._env(X)
+    for k, v in arch.funcs.items():
+        env.setdefault(k, v)
+    base_mod = dict((E[k], None) for k in ('w8', 'se', 'sw', 'ww', 'sg', 'dr', 'cr', 'ft', 'w64', 'sd', 'wd', 'bkf', 'spf', 'dtf', 'mmx') if k in E)
+    VALUES = {8: (0x03, 0x0B, 0x83), 16: (0x1103, 0x110B, 0x9103), 32: (0x11223303, 0x1122330B, 0x91223303)}
+
+    def render(inst, ops, fmt):
+        me = class_obj(arch, 'x86_mn', 'self')
+        m = Obj('m')
+        m.name = inst.rowname
+        mm = dict(base_mod)
+        mm.update(inst.modifs)
+        m.modifs = mm
+        me.m, me.prefix, me.arg, me.cmt = m, list(inst.prefix or ()), ops, ''
+        me.opmode = afs.u32 if inst.opmode == 'u32' else afs.u16
+        me.admode = afs.u32
+        return Evaluator(env).call_user(strm, [me, fmt])
+    n, seen, skipped = 0, set(), 0
+    for inst in L.instances:
+        ops = inst.operands
+        imms = [k for k, od in enumerate(ops) if not od.get(afs.ad) and isinstance(od.get(afs.imm), ModVal)]
+        if not imms or any(isinstance(od.get(afs.imm), ModVal) and od.get(afs.ad) for od in ops) and False:
+            continue
+        shape = (inst.rowname, tuple(inst.prefix or ()), inst.form.split(';')[0], len(ops))
+        if shape in seen:
+            continue
+        seen.add(shape)
+        for k in imms:
+            width = ops[k][afs.imm].size
+            if width not in VALUES:
+                continue
+            for fmt in ('intel_syntax noprefix', 'att_syntax binutils'):
+                texts = []
+                try:
+                    for val in VALUES[width]:
+                        o2 = []
+                        for j, od in enumerate(ops):
+                            d = dict(od)
+                            if isinstance(d.get(afs.imm), ModVal):
+                                d[afs.imm] = val if j == k else (d[afs.imm].val if d[afs.imm].val is not None else 0x10)
+                            o2.append(d)
+                        texts.append(render(inst, o2, fmt))
+                except PyRaise as e:
+                    # a form the renderer cannot print is a matter for C10 (totality); nothing to compare here
+                    skipped += 1
+                    continue
+                except NotConst as e:
+                    raise AnalysisError('x86_mn.__str__ is outside the evaluable subset on %s: %s' % (inst.key(), e))
+                n += 1
+                iid = 'render-imm:%s:%d:%s' % (inst.key(), k, fmt.split('_')[0])
+                if len(set(texts)) == len(texts):
+                    R.ok(iid, nontrivial=(n % 5 == 0), sample='%s: %s / %s' % (inst.key(), texts[0].strip(), texts[2].strip()))
+                else:
+                    same = [(VALUES[width][a], VALUES[width][b]) for a in range(3) for b in range(a + 1, 3) if texts[a] == texts[b]][0]
+                    R.violation(iid, 'render-imm:%s:%s' % (inst.rowname, fmt.split('_')[0]), '%s with the immediates %#x and %#x is rendered as the same text %r (%s): the text no longer '
+                                'determines the immediate' % (inst.key(), same[0], same[1], texts[0].strip(), fmt.split(' ')[0]), where(arch, strm), witness='0f c2 c1 0b (cmpps xmm0, xmm1, 11)')
+    if skipped:
+        R.note('%d form x syntax combinations raise in __str__ and were left to C10' % skipped)
+    if not n:
+        raise AnalysisError('no decoder form with an immediate operand could be rendered')
+
 
 MUTANTS = [
     ('pinsrw-mem-dword', 'miasmx/arch/ia32_arch.py', "    '#p#insrb':   x86_afs.u08, '#p#insrw':   x86_afs.u16,", "    '#p#insrb':   x86_afs.u08,", 'C01.D5'),
